@@ -74,8 +74,10 @@ func (w *Proxy) signal() {
 	s.Go("shutdown", func() { _ = w.mosn.Shutdown() }, func() {
 		w.shutRet = s.Now()
 		s.Logf("Shutdown returned after %v", w.shutRet-w.sigAt)
-		if w.N.Listening(w.lisAddr) {
-			s.Violate("C11", "still_accepting_after_shutdown", "Mosn.Shutdown has returned but the listener %s still accepts connections", w.lisAddr)
+		for _, a := range []string{w.lisAddr, lisAddr2} {
+			if w.N.Listening(a) {
+				s.Violate("C11", "still_accepting_after_shutdown", "Mosn.Shutdown has returned but the listener %s still accepts connections", a)
+			}
 		}
 		s.Go("close", func() { w.mosn.Close(false) }, func() {
 			w.closeRet = s.Now()
